@@ -77,22 +77,11 @@ def _mentions_real_symbols(fs):
 
 
 def is_definitive(fs):
-    """A `sat` answer is definitive only for quantifier-free formulas without the axiomatised
-    T-REAL symbols: there the model is a genuine counterexample of the contract.  With quantified
-    lemmas or exp/log axioms instantiated on ground terms, `sat` may just mean a missing instance."""
-    todo, seen = list(fs), set()
-    while todo:
-        t = todo.pop()
-        if t.get_id() in seen:
-            continue
-        seen.add(t.get_id())
-        if z3.is_quantifier(t):
-            return False
-        if z3.is_app(t):
-            if any(t.decl().eq(d) for d in (real.EXP, real.LOG, real.SQRT, real.POW)):
-                return False
-            todo.extend(t.children())
-    return True
+    """A `sat` answer is taken as a genuine counterexample unless the formulas mention the T-REAL symbols that are only
+    axiomatised by instantiation on ground terms (exp, log, sqrt, pow): there `sat` may just mean a missing lemma instance.
+    With quantified hypotheses z3 answers `sat` only after model-based quantifier instantiation has checked the model against
+    every quantifier (otherwise it answers `unknown`), so quantifiers alone do not make a model spurious."""
+    return not _mentions_real_symbols(fs)
 
 
 def discharge(ob, timeout_ms=20000, split_first=False):
